@@ -41,6 +41,14 @@ def apply(m, oracle, op):
     elif k == "deletes":
         m.delete_agents(list(op[1]))
         oracle["agents"] = [a for a in oracle["agents"] if a[0] not in op[1]]
+    elif k == "churn":
+        # several operations with no query in between: delete some agents and create as many (population size unchanged)
+        m.delete_agents(list(op[1]))
+        gone = [a for a in oracle["agents"] if a[0] in op[1]]
+        oracle["agents"] = [a for a in oracle["agents"] if a[0] not in op[1]]
+        for _ in range(len(gone)):
+            m.create_agent(op[2], None)
+            oracle["agents"].append([oracle["next"], op[2], "active"]); oracle["next"] += 1
     elif k == "configure":
         m.configure_agents([{"name": t, "count": c} for t, c in op[1]])
         oracle["agents"] = []
@@ -119,7 +127,7 @@ def run(ops):
             return "after step %d %r: %s" % (n, op, bad)
     return None
 
-ops = [('configure', (('c', 2), ('c', 0)))]
+ops = [('configure', (('c', 1), ('b', 1))), ('churn', (0, 1, 2), 'c')]
 bad = run(ops)
 print("history:", ops)
 print("FAIL: " + bad if bad else "PASS")
